@@ -534,7 +534,10 @@ pub fn run_one_live(seed: u64, rt: &tokio::runtime::Runtime) -> Outcome {
     let child = Arc::new(ProbeSpec::new(20, Some(format!("c06t-child-{seed:x}")), trace.clone()));
     spec.post_start.push(Step::SpawnChild(child));
     let spec = Arc::new(spec);
-    let (actor, handle) = rt.block_on(spawn_probe(&spec, None)).expect("spawn");
+    // a supervisor that logs what it is told (its log is the observable for "has been sent the terminal event")
+    let sup_spec = Arc::new(ProbeSpec::new(SUP, Some(format!("c06t-sup-{seed:x}")), trace.clone()));
+    let (sup_ref, sup_handle) = rt.block_on(spawn_probe(&sup_spec, None)).expect("spawn sup");
+    let (actor, handle) = rt.block_on(spawn_probe(&spec, Some(sup_ref.get_cell()))).expect("spawn");
     th::wait_until(2000, || actor.get_status() == ActorStatus::Running && !actor.get_children().is_empty());
     let children = actor.get_children();
     let nwaiters = p.range(2, 5);
@@ -575,6 +578,34 @@ pub fn run_one_live(seed: u64, rt: &tokio::runtime::Runtime) -> Outcome {
             }));
         }));
     }
+    // blocking waiters: each drives its own runtime, so it runs the instant it is woken and looks at the world right then
+    for w in 0..p.range(1, 2) {
+        let (a, tr, mut sp, nm, gs, chs, sr) = (actor.clone(), trace.clone(), p.fork(), name.clone(), groups.clone(), children.clone(), sup_ref.clone());
+        clients.push(Box::new(move || {
+            for _ in 0..sp.below(2000) {
+                std::hint::spin_loop();
+            }
+            let lrt = tokio::runtime::Builder::new_current_thread().enable_time().build().expect("waiter runtime");
+            let who = format!("blocking-waiter{w}");
+            tr.log(Ev::Call { client: 50 + w as u32, op: "wait", arg: 9 });
+            let ok = lrt.block_on(async { tokio::time::timeout(Duration::from_secs(20), a.wait(None)).await });
+            let Ok(Ok(())) = ok else {
+                if ok.is_err() {
+                    tr.online_violation("lost-wakeup", format!("{who}: wait() did not return within 20 s of the stop"));
+                }
+                return;
+            };
+            snapshot_at_return(&tr, &who, &a.get_cell(), &nm, &gs, &chs);
+            // supervision outranks messages: if the terminal event was sent before this Flush, it is handled before it
+            let _ = lrt.block_on(async { tokio::time::timeout(Duration::from_secs(20), sr.call(PMsg::Flush, None)).await });
+            let subj_pid = pid_of(&a.get_cell());
+            let seen = tr.snapshot().iter().any(|r| matches!(&r.ev, Ev::Sup { uid, kind, who, .. } if *uid == SUP && *who == subj_pid && matches!(kind, SupKind::Terminated | SupKind::Failed)));
+            if !seen {
+                tr.online_violation("supervisor-not-notified", format!("{who}: wait() returned Ok but the supervisor had not been sent the terminal event"));
+            }
+            tr.log(Ev::Ret { client: 50 + w as u32, op: "wait", arg: 9, res: 1 });
+        }));
+    }
     {
         let (a, mut sp) = (actor.clone(), p.fork());
         clients.push(Box::new(move || {
@@ -586,6 +617,8 @@ pub fn run_one_live(seed: u64, rt: &tokio::runtime::Runtime) -> Outcome {
     }
     th::run_clients(clients);
     let jr = rt.block_on(handle);
+    sup_ref.stop(None);
+    let _ = rt.block_on(sup_handle);
     th::end();
     let mut v = vec![];
     if jr.is_err() {
